@@ -22,14 +22,15 @@ OtherLabels == { GoStr(<<120>>), GoStr(<<>>), GoBytes(<<1>>), [t |-> "bool", v |
 Labels == FittingLabels \cup OtherLabels
 
 CsObj == [P |-> <<<<GoInt("int64", 1), [t |-> "alg", neg |-> TRUE, a |-> <<6>>]>>>>, U |-> <<>>, sig |-> <<204, 221>>]
+CsObj2 == [P |-> <<<<GoInt("int64", 1), [t |-> "alg", neg |-> TRUE, a |-> <<7>>]>>>>, U |-> <<<<GoInt("int64", 4), GoBytes(<<50>>)>>>>, sig |-> <<238>>]
 Values ==
   { GoNeg("int64", 6), [t |-> "alg", neg |-> TRUE, a |-> <<6>>], GoInt("uint8", 5), GoInt("int", 0), GoNeg("int8", 0),
     GoStr(<<97, 47, 98>>), GoStr(<<97, 98>>), GoStr(<<>>), GoStr(<<32, 97, 47, 98>>), GoStr(<<97, 47, 98, 32>>), GoStr(<<97, 47, 98, 47, 99>>),
     GoBytes(<<1>>), GoBytes(<<>>), [t |-> "nilbytes"],
     [t |-> "arr", xs |-> <<GoInt("int64", 1)>>], [t |-> "arr", xs |-> <<>>], [t |-> "arr", xs |-> <<GoStr(<<120>>)>>],
     [t |-> "map", ps |-> <<<<GoInt("int64", 1), GoInt("int64", 2)>>>>], [t |-> "bool", v |-> TRUE], [t |-> "nil"],
-    [t |-> "csig", x |-> CsObj], [t |-> "csigs", xs |-> <<CsObj, CsObj>>], [t |-> "csigs", xs |-> <<>>],
-    [t |-> "nilcsig"], [t |-> "csigval", x |-> CsObj], [t |-> "struct"], [t |-> "float"],
+    [t |-> "csig", x |-> CsObj], [t |-> "csigs", xs |-> <<CsObj, CsObj2>>], [t |-> "csigs", xs |-> <<CsObj2, CsObj, CsObj2>>], [t |-> "csigs", xs |-> <<>>],
+    [t |-> "nilcsig"], [t |-> "csigval", x |-> CsObj], [t |-> "struct"], [t |-> "float"], [t |-> "simple", v |-> 16],
     [t |-> "uint64", neg |-> FALSE, a |-> <<128, 0, 0, 0, 0, 0, 0, 0>>] }
 
 Sp(t, n) == [t |-> t, neg |-> FALSE, a |-> NatToArg(n)]
